@@ -19,6 +19,7 @@
 From Coq Require Import List Bool Arith NArith.
 From Coq.Strings Require Import Byte.
 From GI Require Import Gen.ProxyConsts.
+From GI Require Lib.Bytes.
 Import ListNotations.
 
 Definition bytes := list byte.
@@ -553,3 +554,27 @@ End Model.
 Arguments Ret {A} a.
 Arguments ArchDo {A} name k.
 Arguments ZipDo {A} name v k.
+
+(* ------------------------------------------------------------------ the zip at the level of its central
+   directory: what archive/zip's Writer records for z.Create(name) followed by zf.Write(data) and
+   z.Close(): name, method (Deflate; Store for a name ending in "/"), general-purpose flags (bit 3 =
+   data descriptor for files; bit 11 = UTF-8 when the name needs it), CRC-32 of the data and the
+   uncompressed size.  The CRC-32 is an oracle function; compressed sizes, offsets, times and the
+   byte-level encoding are not modelled (the runner checks them with an independent reader). *)
+
+Record cd_entry := { cd_name : bytes; cd_method : N; cd_flags : N; cd_crc : N; cd_size : N }.
+
+(* zip.detectUTF8(name): valid && require *)
+Definition zip_needs_utf8 (n : bytes) : bool :=
+  Lib.Bytes.utf8_valid n &&
+  existsb (fun c => N.ltb (Byte.to_N c) 32 || N.ltb 125 (Byte.to_N c) || N.eqb (Byte.to_N c) 92) n.
+
+Definition cd_of (crc : bytes -> N) (e : bytes * bytes) : cd_entry :=
+  let isdir := has_suffix zip_slash (fst e) in
+  {| cd_name := fst e;
+     cd_method := if isdir then 0%N else 8%N;
+     cd_flags := ((if isdir then 0 else 8) + (if zip_needs_utf8 (fst e) then 2048 else 0))%N;
+     cd_crc := crc (snd e);
+     cd_size := N.of_nat (length (snd e)) |}.
+
+Definition central_directory (crc : bytes -> N) (es : list (bytes * bytes)) : list cd_entry := map (cd_of crc) es.
